@@ -114,21 +114,23 @@ Fixpoint str_body (strict_cp : bool) (fuel : nat) (l : list N) : option (list N 
             | None => None
             | Some cp =>
               if (55296 <=? cp) && (cp <=? 56319) then        (* high surrogate *)
+                (* a lone surrogate: rejected when strict, otherwise skipped *)
+                let lone := if strict_cp then None
+                            else match str_body strict_cp f r2 with Some (d, _, rest) => Some (d, true, rest) | None => None end in
                 match r2 with
-                | 92 :: 117 :: g1 :: g2 :: g3 :: g4 :: r3 =>
-                  match hex4 g1 g2 g3 g4 with
-                  | Some lo =>
-                    if (56320 <=? lo) && (lo <=? 57343) then
-                      match str_body strict_cp f r3 with
-                      | Some (d, _, rest) => Some (utf8_encode (65536 + (cp - 55296) * 1024 + (lo - 56320)) ++ d, true, rest)
-                      | None => None end
-                    else if strict_cp then None
-                    else match str_body strict_cp f r2 with Some (d, _, rest) => Some (d, true, rest) | None => None end
-                  | None => if strict_cp then None
-                            else match str_body strict_cp f r2 with Some (d, _, rest) => Some (d, true, rest) | None => None end
-                  end
-                | _ => if strict_cp then None
-                       else match str_body strict_cp f r2 with Some (d, _, rest) => Some (d, true, rest) | None => None end
+                | q1 :: q2 :: g1 :: g2 :: g3 :: g4 :: r3 =>
+                  if (q1 =? 92) && (q2 =? 117) then
+                    match hex4 g1 g2 g3 g4 with
+                    | Some lo =>
+                      if (56320 <=? lo) && (lo <=? 57343) then
+                        match str_body strict_cp f r3 with
+                        | Some (d, _, rest) => Some (utf8_encode (65536 + (cp - 55296) * 1024 + (lo - 56320)) ++ d, true, rest)
+                        | None => None end
+                      else lone
+                    | None => lone
+                    end
+                  else lone
+                | _ => lone
                 end
               else if (56320 <=? cp) && (cp <=? 57343) then   (* lone low surrogate *)
                 if strict_cp then None
